@@ -304,4 +304,10 @@ def run(prog, ctx):
     m2(prog, ctx)
     m3(prog, ctx)
     m4(prog, ctx)
+    ctx.rule("M5", "the compact records the resolver works on cross the process boundary pickled (--high_memory, threads > 1): "
+                   "__setstate__ restores every state position into the field __getstate__ took it from (genes / isoforms decide "
+                   "which ties are flagged ambiguous); same analysis as C15/Z1 pickle state")
+    from . import c15
+    n5 = c15.z1_pickle_state(prog, ctx, tag="M5")
+    ctx.floor("M5", "pickle state positions", n5, 10)
     ctx.assume("order-independence of tie-breaking and 'counted once' across loci are runtime histories and not decided")
